@@ -230,15 +230,21 @@ class ChildOperationExecutor(OperationExecutor[T]):
             raise
         except Exception as e:
             error_object = ErrorObject.from_exception(e)
-            fail_operation: OperationUpdate = OperationUpdate.create_context_fail(
-                identifier=self.operation_identifier,
-                error=error_object,
-                sub_type=self.sub_type,
-            )
-            # Checkpoint child context FAIL with blocking (is_sync=True, default).
-            # Must ensure the failure state is persisted before raising the exception.
-            # This guarantees the error is durable and child operations won't be re-executed on replay.
-            self.state.create_checkpoint(operation_update=fail_operation)
+            # In ReplayChildren mode the context already holds its terminal SUCCEED record: an error
+            # while rebuilding its result is raised to the caller, but nothing may be checkpointed.
+            if not (
+                checkpointed_result.is_succeeded()
+                and checkpointed_result.is_replay_children()
+            ):
+                fail_operation: OperationUpdate = OperationUpdate.create_context_fail(
+                    identifier=self.operation_identifier,
+                    error=error_object,
+                    sub_type=self.sub_type,
+                )
+                # Checkpoint child context FAIL with blocking (is_sync=True, default).
+                # Must ensure the failure state is persisted before raising the exception.
+                # This guarantees the error is durable and child operations won't be re-executed on replay.
+                self.state.create_checkpoint(operation_update=fail_operation)
 
             # InvocationError and its derivatives can be retried
             # When we encounter an invocation error (in all of its forms), we bubble that
